@@ -47,9 +47,13 @@ def generate(r, tier):
     sc["mode"] = r.choice(["same", "same", "upgrade", "upgrade", "upgrade"])
     sc["prog2"] = kgen.evolve(r, prog, pair_bias=0.35) if sc["mode"] == "upgrade" else None
     sc["parser"] = 1 if (sc["prog2"] and not kgen.v2_ok(sc["prog2"])) else kgen.pick_parser(r, prog, 0.05)
-    sc["prefix"] = ops.gen_history(r, prog, r.randint(0, 12), weights={"read": 6, "edge": 14, "save": 0, "load": 0, "restart": 2, "load_hand": 0}, sane=0.9)
+    # the prefix may save intermediate configurations (slots); a used instance may have loaded one of them before it
+    # loads F - a long-lived process (server, menuconfig) loads more than once
+    sc["prefix"] = ops.gen_history(r, prog, r.randint(0, 12), weights={"read": 6, "edge": 14, "save": 4, "load": 0, "restart": 2, "load_hand": 0}, sane=0.9)
+    slots = {o[1] for o in sc["prefix"] if o[0] in ("save", "restart")}
     tgt = sc["prog2"] or prog
-    sc["used"] = ops.gen_history(r, tgt, r.randint(1, 6), weights={"read": 3, "save": 0, "load": 0, "restart": 0}, sane=0.9) if r.random() < 0.3 else []
+    sc["used"] = ops.gen_history(r, tgt, r.randint(1, 6), weights={"read": 3, "save": 0, "load": 8 if slots else 0, "restart": 0}, sane=0.9,
+                                 presaved=slots) if r.random() < 0.35 else []
     sc["edits"] = ops.gen_history(r, tgt, r.randint(0, 8), weights={"edge": 20, "read": 4, "save": 0, "load": 0, "restart": 0}, sane=0.85)
     return sc
 
